@@ -30,7 +30,7 @@ SPEC = dict(
           "dependents ready; every abort rewrites statuses only by Do->Hold, Doing->Abort, Done->Undo inside the upper "
           "closure of the failed task's lanes and maps everything live in the lower closure; a settled change with a "
           "failed handler is in Error, nothing undoable in the lower closure is left Done, everything outside the upper "
-          "closures completed. a task of the failed task's lanes that the independently stated healthy-lane exemption does not spare is aborted, and a settled Done task with undo handler sharing a lane with a failed task was spared by it. In the non-nested case exactly the non-spared lane tasks and what transitively waits on them change. Statuses are effective ones (Task.WaitedStatus is observed). Scripted-prefix families park a lane in Wait while another lane fails and undo chains with a Wait at the far end. A quarter of the histories come from the shared-prerequisite family (tasks in 2-3 lanes, a chain per lane, failures forced in two or three lanes one after the other). Non-trivial = a history with a failed handler in which some undo handler started."),
+          "closures completed. a task of the failed task's lanes that the independently stated healthy-lane exemption does not spare is aborted, and a settled Done task with undo handler sharing a lane with a failed task was spared by it. In the non-nested case exactly the non-spared lane tasks and what transitively waits on them change. Statuses are effective ones (Task.WaitedStatus is observed). The tombs that have been killed are observed after every event and compared with the model; every task with a dying tomb must be in Abort (handlers of healthy lanes are never stopped). Scripted-prefix families park a lane in Wait while another lane fails and undo chains with a Wait at the far end. A quarter of the histories come from the shared-prerequisite family (tasks in 2-3 lanes, a chain per lane, failures forced in two or three lanes one after the other). Non-trivial = a history with a failed handler in which some undo handler started."),
     exhaustive=dict(quick=False, thorough=False),
     trusted_base=[
         "hand-written model coq/models/TaskEngine.v of overlord/state (change.go abortLanes/abortTasks/taskEffectiveStatus, taskrunner.go run/Ensure/tryUndo/mustWait/abortLanes, task.go SetStatus/SetToWait), tied by the differential run (harness/overlay/overlord/state/zz_verif_c01_test.go)",
